@@ -17,9 +17,9 @@ def G(label, props, f):
 
 def std(s):
     s.req("DInv", lambda c, A: DInv(c, A.S0), ("C02",))
-    s.req("Fresh", lambda c, A: Fresh(c, A.S0), ("C04",))
+    s.req("Fresh", lambda c, A: Fresh(c, A.S0), ("C02", "C04"))
     s.ens_all("DInv", ("C02",), lambda c, A, R: DInv(c, R.S))
-    s.ens_all("Fresh", ("C04",), lambda c, A, R: Fresh(c, R.S))
+    s.ens_all("Fresh", ("C02", "C04"), lambda c, A, R: Fresh(c, R.S))
     return s
 
 
@@ -58,7 +58,7 @@ def nodes_same_on(c, S, S0):
 
 
 def frozen_exc(s):
-    s.exc("XGIError", "only-when-frozen", ("C18",), lambda c, A, R: A.S0.shadow != c.EMPTY)
+    s.exc("XGIError", "only-when-frozen", ("C18",), lambda c, A, R: A.S0.shadow.any())
     return s
 
 
@@ -83,7 +83,7 @@ def _nodes_only_added(c, S, S0):
 
 s = std(contract(D + "add_nodes_from", [("self", "net:DH"), ("nodes_for_adding", "val"), ("attr", "kwattr")]))
 s.loop("for n in nodes_for_adding", lambda c, A, K: [
-    G("struct", ("C02",), DInv(c, K.S)), G("fresh", ("C04",), z3.And(Fresh(c, K.S), _edges_untouched(c, K.S, A.S0))),
+    G("struct", ("C02",), DInv(c, K.S)), G("fresh", ("C02", "C04"), z3.And(Fresh(c, K.S), _edges_untouched(c, K.S, A.S0))),
     G("frame", ("C05",), _nodes_only_added(c, K.S, A.S0))])
 s.ens_all("edges-untouched", ("C04", "C05"), lambda c, A, R: _edges_untouched(c, R.S, A.S0))
 s.ens_all("nodes-only-added", ("C05",), lambda c, A, R: _nodes_only_added(c, R.S, A.S0))
@@ -140,7 +140,7 @@ def _only_removed(c, S, S0):
 
 def _ref_outer(c, A, K):
     S, S0 = K.S, A.S0
-    return [G("struct", ("C02",), DInv(c, S)), G("fresh", ("C04",), Fresh(c, S)),
+    return [G("struct", ("C02",), DInv(c, S)), G("fresh", ("C02", "C04"), Fresh(c, S)),
             G("frame", ("C05",), z3.And(_only_removed(c, S, S0), S.nk == S0.nk))]
 
 
@@ -153,7 +153,7 @@ def _ref_tail(c, A, K):
         c.forall(["id"], lambda n: z3.And(sel(S.nk, n), sel(S.Nout, n, e)) == z3.And(sel(S.Ein, e, n), z3.Not(sel(K.done, n)))),
         c.forall(["id"], lambda n: z3.Implies(sel(S.Ein, e, n), sel(S.nk, n))),
         K.content == sel(S.Ein, e), sel(S.Eout, e) == K.L("edge").get("out"))),
-        G("fresh", ("C04",), Fresh(c, S)), G("frame", ("C05",), z3.And(_only_removed(c, S, S0), S.nk == S0.nk))]
+        G("fresh", ("C02", "C04"), Fresh(c, S)), G("frame", ("C05",), z3.And(_only_removed(c, S, S0), S.nk == S0.nk))]
 
 
 def _ref_head(c, A, K):
@@ -165,7 +165,7 @@ def _ref_head(c, A, K):
         c.forall(["id"], lambda n: z3.And(sel(S.nk, n), sel(S.Nin, n, e)) == z3.And(sel(S.Eout, e, n), z3.Not(sel(K.done, n)))),
         c.forall(["id"], lambda n: z3.Implies(sel(S.Eout, e, n), sel(S.nk, n))),
         K.content == sel(S.Eout, e))),
-        G("fresh", ("C04",), Fresh(c, S)), G("frame", ("C05",), z3.And(_only_removed(c, S, S0), S.nk == S0.nk))]
+        G("fresh", ("C02", "C04"), Fresh(c, S)), G("frame", ("C05",), z3.And(_only_removed(c, S, S0), S.nk == S0.nk))]
 
 
 s = std(contract(D + "remove_edges_from", [("self", "net:DH"), ("ebunch", "val")]))
@@ -250,7 +250,7 @@ def _ae_common(c, A, K, u):
                                z3.Implies(auto, u == c.of_int(S0.uid)), z3.Implies(z3.Not(auto), u == A.idx.term))),
         G("struct", ("C02",), z3.And(tail_way(c, S), head_way(c, S), S.nk == S.nak, S.eak == S0.eak, S.ek == c.add(S0.ek, u),
                                      z3.Not(sel(S.nk, c.NONE)))),
-        G("counter", ("C04",), S.uid == z3.If(auto, S0.uid + 1, S0.uid)),
+        G("counter", ("C02", "C04"), S.uid == z3.If(auto, S0.uid + 1, S0.uid)),
         G("kept", ("C04",), _kept(c, S, S0)),
         G("frame", ("C05",), z3.And(c.subset(S0.nk, S.nk), node_attrs_same_on(c, S, S0), S.neth == S0.neth, S.netv == S0.netv,
                                     c.forall(["id"], lambda n: z3.Implies(sel(S0.nk, n), z3.And(
@@ -289,7 +289,7 @@ def _nodes_grow(c, S, S0):
 
 def _aef_outer(c, A, K):
     S, S0 = K.S, A.S0
-    return [G("struct", ("C02",), DInv(c, S)), G("fresh", ("C04",), z3.And(Fresh(c, S), _kept(c, S, S0), S.uid >= S0.uid)),
+    return [G("struct", ("C02",), DInv(c, S)), G("fresh", ("C02", "C04"), z3.And(Fresh(c, S), _kept(c, S, S0), S.uid >= S0.uid)),
             G("frame", ("C05",), _nodes_grow(c, S, S0))]
 
 
@@ -315,7 +315,7 @@ def _aef_partial(c, A, K, phase, attr_set, auto_flags):
         G("struct", ("C02",), z3.And(tail_way(c, S, e), head_way(c, S, e), mem, sel(S.ek, e), z3.Not(sel(S0.ek, e)), e != c.NONE,
                                      z3.Not(sel(sel(S.Ein, e), c.NONE)), z3.Not(sel(sel(S.Eout, e), c.NONE)),
                                      S.nk == S.nak, eak, z3.Not(sel(S.nk, c.NONE)), z3.Not(sel(S.ek, c.NONE)))),
-        G("fresh", ("C04",), z3.And(fresh, _kept(c, S, S0), S.uid >= S0.uid)),
+        G("fresh", ("C02", "C04"), z3.And(fresh, _kept(c, S, S0), S.uid >= S0.uid)),
         G("frame", ("C05",), _nodes_grow(c, S, S0)),
     ]
 
@@ -424,7 +424,7 @@ s.exc("TypeError", "unhashable-id", ("C05",), lambda c, A, R: z3.And(z3.Not(c.ha
 
 s = std(contract(D + "remove_nodes_from", [("self", "net:DH"), ("nodes", "val"), ("strong", "bool", False), ("remove_empty", "bool", True)]))
 s.loop("for n in nodes", lambda c, A, K: [
-    G("struct", ("C02",), DInv(c, K.S)), G("fresh", ("C04",), Fresh(c, K.S)),
+    G("struct", ("C02",), DInv(c, K.S)), G("fresh", ("C02", "C04"), Fresh(c, K.S)),
     G("frame", ("C05",), z3.And(_only_removed(c, K.S, A.S0), c.forall(["id"], lambda n: z3.Implies(sel(K.done, n), z3.Not(sel(K.S.nk, n))))))])
 s.ens_all("only-removes", ("C05",), lambda c, A, R: _only_removed(c, R.S, A.S0))
 s.ens("listed-nodes-gone", ("C05",), lambda c, A, R: c.forall(["id"], lambda n: z3.Implies(
